@@ -61,11 +61,16 @@ const int64_t kFarSec = 4294967;                                   // 2^32 ms
 // ------------------------------------------------------------------------------------------------
 enum { TZ, WEEKLY, ONESHOT, WORKDAY, DAY, CRON, CF, TIME,         // common prefix of both op tables
        /* lifecycle only: */ EN, DIS, REF, ADV, EARLY, SKEW, STEP, CALMASK, DAYCLR, CBMODE,
-       /* both subs: re-initialise the SAME alarm object with a new configuration of its kind */ RECONF };
+       /* both subs: re-initialise the SAME alarm object with a new configuration of its kind */ RECONF,
+       /* lifecycle: several alarm objects at once */ SEL, SPAWN, DESTROY };
 enum Kind { K_WEEKLY, K_ONESHOT, K_WORKDAY, K_CRON };
 const char *kKindName[] = {"kind_weekly", "kind_oneshot", "kind_workday", "kind_cron"};
 
+// content of a WorkdayCalendar shared by several alarms (lifecycle); a Config that points to one uses it instead of its own fields
+struct CalModel { int mask = 0x3e; std::map<int, bool> special; };
+
 struct Config {
+  const CalModel *calp = nullptr;
   int kind = K_WEEKLY;
   int tz_min = 0;
   int sod = 0;
@@ -164,9 +169,10 @@ void build_config(const Scenario &s, size_t end, int64_t anchor_local, Config &c
 // reference: earliest instant strictly after `now` (UTC seconds) that satisfies the configuration
 // ------------------------------------------------------------------------------------------------
 bool cal_is_workday(const Config &c, int64_t day) {
-  auto it = c.special.find((int)day);
-  if (it != c.special.end()) return it->second;
-  return (c.cal_mask >> weekday_of(day)) & 1;
+  const std::map<int, bool> &sp = c.calp ? c.calp->special : c.special;
+  auto it = sp.find((int)day);
+  if (it != sp.end()) return it->second;
+  return ((c.calp ? c.calp->mask : c.cal_mask) >> weekday_of(day)) & 1;
 }
 bool cron_day_ok(const Config &c, int64_t day) {
   int y; unsigned m, d; civil_from_days(day, y, m, d);
@@ -241,24 +247,33 @@ struct Subject {
   std::unique_ptr<tbox::alarm::WorkdayCalendar> cal;     // declared before the alarms: must outlive them
   std::unique_ptr<WeeklyProbe> w; std::unique_ptr<OneshotProbe> o; std::unique_ptr<WorkdayProbe> wd; std::unique_ptr<CronProbe> cr;
   tbox::alarm::Alarm *a = nullptr;
+  tbox::alarm::WorkdayCalendar *calp = nullptr;   // calendar the workday alarm watches (owned `cal` or a shared one)
   int kind = 0;
 
-  // returns "" or why the documented-valid configuration was rejected
+  // standalone form (next_instant): own loop, own calendar.  Returns "" or why the documented-valid configuration was rejected
   std::string create(const Config &c) {
-    kind = c.kind;
     loop.reset(tbox::event::Loop::New());
+    if (c.kind == K_WORKDAY) cal.reset(new tbox::alarm::WorkdayCalendar);
+    return create_shared(loop.get(), cal.get(), c, true);
+  }
+  // alarm object on an external loop, watching an external (possibly shared) calendar whose content the caller manages
+  std::string create_shared(tbox::event::Loop *lp, tbox::alarm::WorkdayCalendar *cp, const Config &c, bool set_cal = false) {
+    kind = c.kind; calp = cp;
     switch (c.kind) {
-      case K_WEEKLY: w.reset(new WeeklyProbe(loop.get())); a = w.get(); break;
-      case K_ONESHOT: o.reset(new OneshotProbe(loop.get())); a = o.get(); break;
-      case K_WORKDAY: cal.reset(new tbox::alarm::WorkdayCalendar); wd.reset(new WorkdayProbe(loop.get())); a = wd.get(); break;
-      default: cr.reset(new CronProbe(loop.get())); a = cr.get(); break;
+      case K_WEEKLY: w.reset(new WeeklyProbe(lp)); a = w.get(); break;
+      case K_ONESHOT: o.reset(new OneshotProbe(lp)); a = o.get(); break;
+      case K_WORKDAY: wd.reset(new WorkdayProbe(lp)); a = wd.get(); break;
+      default: cr.reset(new CronProbe(lp)); a = cr.get(); break;
     }
-    std::string e = init(c);
+    std::string e = init_(c, set_cal);
     a->setTimezone(c.tz_min);
     return e;
   }
   // initialize() of the EXISTING object with configuration c (same kind); also used to reconfigure it later
-  std::string init(const Config &c) {
+  std::string init(const Config &c) { return init_(c, true); }
+  std::string reinit(const Config &c, tbox::alarm::WorkdayCalendar *cp) { calp = cp; return init_(c, false); }
+  void destroy_alarm() { w.reset(); o.reset(); wd.reset(); cr.reset(); a = nullptr; }
+  std::string init_(const Config &c, bool set_cal) {
     bool ok = false;
     switch (kind) {
       case K_WEEKLY: {
@@ -267,9 +282,8 @@ struct Subject {
         ok = w->initialize(c.sod, m); break; }
       case K_ONESHOT: ok = o->initialize(c.sod); break;
       case K_WORKDAY:
-        cal->updateWeekMask((uint8_t)c.cal_mask);
-        cal->updateSpecialDays(c.special);
-        ok = wd->initialize(c.sod, cal.get(), c.workday_flag); break;
+        if (set_cal) { calp->updateWeekMask((uint8_t)c.cal_mask); calp->updateSpecialDays(c.special); }
+        ok = wd->initialize(c.sod, calp, c.workday_flag); break;
       default: ok = cr->initialize(c.cron_text); break;
     }
     if (!ok) return "initialize() rejected a configuration of the documented shape" + (c.kind == K_CRON ? " (cron \"" + c.cron_text + "\")" : std::string());
@@ -284,7 +298,7 @@ struct Subject {
     }
   }
   void destroy(bool ran = true) {
-    w.reset(); o.reset(); wd.reset(); cr.reset(); a = nullptr;
+    destroy_alarm();
     if (loop && ran) vloop::passes(loop.get(), 2);   // let the loop run the deferred timer releases
     cal.reset(); loop.reset();
   }
@@ -295,7 +309,7 @@ std::string describe(const Config &c) {
   switch (c.kind) {
     case K_WEEKLY: snprintf(b, sizeof b, "weekly sod=%d mask=0x%02x tz=%+dmin", c.sod, c.mask, c.tz_min); break;
     case K_ONESHOT: snprintf(b, sizeof b, "oneshot sod=%d tz=%+dmin", c.sod, c.tz_min); break;
-    case K_WORKDAY: snprintf(b, sizeof b, "workday sod=%d on_%s calmask=0x%02x special=%zu tz=%+dmin", c.sod, c.workday_flag ? "workdays" : "holidays", c.cal_mask, c.special.size(), c.tz_min); break;
+    case K_WORKDAY: snprintf(b, sizeof b, "workday sod=%d on_%s calmask=0x%02x special=%zu tz=%+dmin", c.sod, c.workday_flag ? "workdays" : "holidays", c.calp ? c.calp->mask : c.cal_mask, c.calp ? c.calp->special.size() : c.special.size(), c.tz_min); break;
     default: snprintf(b, sizeof b, "cron \"%s\" tz=%+dmin", c.cron_text.c_str(), c.tz_min); break;
   }
   return b;
@@ -311,15 +325,17 @@ int64_t clamp_utc(int64_t u) { return u < kMinUtc ? kMinUtc : (u > kMaxUtc ? kMa
 // existing alarm object (weekly: p1 = mask, p2 = mask style; workday: p1 = workdays/holidays, p2 = calendar week mask).  The cf ops
 // (cron) / day ops (workday) that follow it immediately belong to it: they form the new expression / the new calendar content (days
 // relative to the local day at the moment of the reconfiguration).  Returns the index of the first op that is not consumed.
-size_t reconf_config(const Scenario &s, size_t k, const Config &old, int64_t anchor_local, Config &nc) {
+// The spawn op (`spawn kind sodmode sod p1 p2 calendar`) uses the same argument positions; a spawned workday alarm watches an
+// existing calendar, so it consumes no day ops (follow_days = false).
+size_t derive_config(const Scenario &s, size_t k, int kind, int tz_min, int64_t anchor_local, Config &nc, bool follow_days) {
   const Op &op = s.ops[k];
   Scenario t;
-  Op o; o.code = TZ; o.a = {old.tz_min + 720}; t.ops.push_back(o);
-  o.code = old.kind == K_WEEKLY ? WEEKLY : (old.kind == K_ONESHOT ? ONESHOT : (old.kind == K_WORKDAY ? WORKDAY : CRON));
+  Op o; o.code = TZ; o.a = {tz_min + 720}; t.ops.push_back(o);
+  o.code = kind == K_WEEKLY ? WEEKLY : (kind == K_ONESHOT ? ONESHOT : (kind == K_WORKDAY ? WORKDAY : CRON));
   o.a = {op.arg(1), op.arg(2), op.arg(3), op.arg(4)};
   t.ops.push_back(o);
   size_t e = k + 1;
-  const int follow = old.kind == K_CRON ? CF : (old.kind == K_WORKDAY ? DAY : -1);
+  const int follow = kind == K_CRON ? CF : (kind == K_WORKDAY && follow_days ? DAY : -1);
   while (e < s.ops.size() && s.ops[e].code == follow) t.ops.push_back(s.ops[e++]);
   nc = Config();
   build_config(t, t.ops.size(), anchor_local, nc);
@@ -353,7 +369,7 @@ std::string run_next(const Scenario &s, CaseInfo &info) {
     if (op.code == RECONF && queries > 0) {
       // the same object is re-initialised (after disable() or after cleanup()); later answers must follow the NEW configuration only
       Config nc;
-      size_t e2 = reconf_config(s, k, c, prev_now + tz, nc);
+      size_t e2 = derive_config(s, k, c.kind, c.tz_min, prev_now + tz, nc, true);
       int via = (int)op.in(0, 0, 1);
       if (via == 0) sub.a->disable(); else sub.a->cleanup();
       info.cls(via == 0 ? "reconf_after_disable" : "reconf_after_cleanup");
@@ -427,80 +443,112 @@ struct Wall {
 
 struct Micro { enum { ADVANCE, SKEWM, DO_OP } kind; int64_t a = 0, b = 0; size_t op = 0; };
 
-struct Life {
-  const Scenario &s; CaseInfo &info; Config c; Subject sub; uint64_t &M; int64_t &W;
-  size_t pc = 0, ops_done = 0;
-  std::string err;
-  std::deque<Micro> q;
-  int settle = 0;
+// Known defect outside the property statement (memory safety, see NOTES.md): a WorkdayAlarm that is destroyed while it is still
+// subscribed to its calendar (enabled, or enable()/re-arm failed) leaves a dangling pointer in the calendar.  The destroy op avoids
+// exactly that shape and counts what it avoided.
+static const bool kAvoid_workday_destroy_subscribed = true;
+
+const int kMaxUnits = 4;
+
+// one alarm object with its own model
+struct Unit {
+  bool alive = false, used = false;   // a slot is used once per case (never recycled)
+  Config c; Subject sub; int cal = 0;
   // model
   bool armed = false, free_pending = false;
   int64_t T = 0; uint64_t M_arm = 0; int64_t W_arm = 0; bool skewed_since_arm = false;
   int64_t last_fired_T = -1;
   int cbmode = 0;
+  bool subscribed = false;      // bookkeeping for kAvoid_workday_destroy_subscribed only (never part of an oracle)
+  bool reconfigured = false;
+  int fires = 0;
+  uint64_t need_ms() const { int64_t d = T * 1000000 - W_arm; return (uint64_t)((d + 999) / 1000); }
+  uint64_t deadline() const { return M_arm + need_ms(); }
+};
+
+struct Life {
+  const Scenario &s; CaseInfo &info; uint64_t &M; int64_t &W;
+  std::unique_ptr<tbox::event::Loop> loop;
+  std::unique_ptr<tbox::alarm::WorkdayCalendar> cal[2];   // declared before the units: calendars outlive the alarms
+  CalModel calm[2];
+  Unit u[kMaxUnits];
+  int cur = 0, tz_min = 0, created = 0;
+  size_t pc = 0, ops_done = 0;
+  std::string err;
+  std::deque<Micro> q;
+  int settle = 0;
   // statistics
-  int fires = 0; bool far_target = false, far_fired = false, early_wake = false, reconfigured = false;
-  // advance in progress
+  int fires = 0; bool far_target = false, early_wake = false;
   int stops = 0;
 
   Life(const Scenario &sc, CaseInfo &ci, uint64_t &m, int64_t &w) : s(sc), info(ci), M(m), W(w) {}
 
+  Unit &U() { return u[cur]; }
   int64_t wsec() const { return W / 1000000; }
-  void fail(const std::string &m) {
+  int alive_count() const { int n = 0; for (auto &x : u) n += x.alive; return n; }
+  void fail(const Unit &x, const std::string &m) {
     if (!err.empty()) return;
     char b[200]; snprintf(b, sizeof b, " [wall=%lld.%06lld mono_ms=%llu fires=%d]", (long long)wsec(), (long long)(W % 1000000), (unsigned long long)M, fires);
-    err = describe(c) + ": " + m + b;
+    std::string who;
+    if (created > 1) { char w[64]; snprintf(w, sizeof w, "alarm #%d of %d: ", (int)(&x - u), created); who = w; }
+    err = who + describe(x.c) + ": " + m + b;
   }
-  uint64_t need_ms() const { int64_t d = T * 1000000 - W_arm; return (uint64_t)((d + 999) / 1000); }
-  uint64_t deadline() const { return M_arm + need_ms(); }
 
   // the model arms for the earliest instant strictly after `start`
-  void model_arm(int64_t start) {
-    Ref r = next_after(c, start);
-    free_pending = false;
-    if (r.z == Z_NONE) { armed = false; info.cls("no_instant_exists"); return; }
-    armed = true; free_pending = r.z == Z_FREE;
-    T = r.t; M_arm = M; W_arm = W; skewed_since_arm = false;
-    if (T - wsec() > kFarSec) { far_target = true; info.cls("target_gt_49d"); }
-    if (T - wsec() > 366 * kDay) info.cls("target_gt_1y");
+  void model_arm(Unit &x, int64_t start) {
+    Ref r = next_after(x.c, start);
+    x.free_pending = false;
+    if (r.z == Z_NONE) { x.armed = false; info.cls("no_instant_exists"); return; }
+    x.armed = true; x.free_pending = r.z == Z_FREE;
+    x.T = r.t; x.M_arm = M; x.W_arm = W; x.skewed_since_arm = false;
+    if (x.T - wsec() > kFarSec) { far_target = true; info.cls("target_gt_49d"); }
+    if (x.T - wsec() > 366 * kDay) info.cls("target_gt_1y");
   }
 
-  void on_fire() {
-    on_fire_checked();
+  // disable() with the subscription bookkeeping
+  void real_disable(Unit &x) { bool running = x.sub.a->isEnabled(); x.sub.a->disable(); if (running) x.subscribed = false; }
+  bool real_enable(Unit &x) { if (!x.sub.a->isEnabled()) x.subscribed = true; return x.sub.a->enable(); }
+
+  void on_fire(Unit &x) {
+    on_fire_checked(x);
     // a violation ends the case; make sure a run-away alarm (e.g. one re-arming itself with a zero delay inside the
     // loop's timer dispatch) cannot keep the loop busy forever
-    if (!err.empty()) sub.a->disable();
+    if (!err.empty()) x.sub.a->disable();
   }
-  void on_fire_checked() {
-    ++fires;
-    if (!armed) { fail("callback fired while the alarm is disabled"); return; }
-    uint64_t waited = M - M_arm;
+  void on_fire_checked(Unit &x) {
+    ++fires; ++x.fires;
+    if (!x.armed) { fail(x, "callback fired while the alarm is disabled"); return; }
+    uint64_t waited = M - x.M_arm;
     char b[300];
-    if ((int64_t)waited * 1000 < T * 1000000 - W_arm) {
+    if ((int64_t)waited * 1000 < x.T * 1000000 - x.W_arm) {
       snprintf(b, sizeof b, "callback fired early: armed at wall %lld.%06lld for instant %lld (distance %lld s) but waited only %llu ms",
-               (long long)(W_arm / 1000000), (long long)(W_arm % 1000000), (long long)T, (long long)(T - W_arm / 1000000), (unsigned long long)waited);
-      fail(b); return;
+               (long long)(x.W_arm / 1000000), (long long)(x.W_arm % 1000000), (long long)x.T, (long long)(x.T - x.W_arm / 1000000), (unsigned long long)waited);
+      fail(x, b); return;
     }
-    if (!skewed_since_arm && W < T * 1000000) { fail("callback fired while wall time < target although the clocks ran in lock-step"); return; }
-    if (W < T * 1000000) { early_wake = true; info.cls("early_wake_by_skew"); }
-    if (T - W_arm / 1000000 > kFarSec) { far_fired = true; info.cls("target_gt_49d_fired"); }
-    last_fired_T = T;
-    info.cls_if(reconfigured, "fired_after_reconf");
-    if (c.kind == K_ONESHOT) { armed = false; info.cls("oneshot_fired"); }
-    else model_arm(std::max(T, wsec()));
-    if (cbmode == 1) { sub.a->disable(); armed = false; free_pending = false; info.cls("disable_in_callback"); }
+    if (!x.skewed_since_arm && W < x.T * 1000000) { fail(x, "callback fired while wall time < target although the clocks ran in lock-step"); return; }
+    if (W < x.T * 1000000) { early_wake = true; info.cls("early_wake_by_skew"); }
+    if (x.T - x.W_arm / 1000000 > kFarSec) info.cls("target_gt_49d_fired");
+    x.last_fired_T = x.T;
+    info.cls_if(x.reconfigured, "fired_after_reconf");
+    info.cls_if(created > 1, "fired_with_several_alarms");
+    if (x.c.kind == K_ONESHOT) { x.armed = false; info.cls("oneshot_fired"); }
+    else model_arm(x, std::max(x.T, wsec()));
+    if (x.cbmode == 1) { real_disable(x); x.armed = false; x.free_pending = false; info.cls("disable_in_callback"); }
   }
 
-  // invariants that hold between loop passes
+  // invariants that hold between loop passes, for every alarm that is alive
   void post_check() {
-    if (!err.empty()) return;
-    bool en = sub.a->isEnabled();
-    if (free_pending) { armed = en; free_pending = false; info.cls("horizon_edge"); }
-    if (en != armed) { fail(en ? "isEnabled() is true although the alarm must be disabled (one-shot fired / disabled / no instant exists)" : "isEnabled() is false although an instant exists and the alarm was enabled"); return; }
-    if (!armed) return;
-    uint32_t rem = sub.a->remainSeconds(), exp = (uint32_t)(T - wsec());
-    if (rem != exp) { char b[200]; snprintf(b, sizeof b, "remainSeconds()=%u but next instant %lld - now %lld = %u", rem, (long long)T, (long long)wsec(), exp); fail(b); return; }
-    if (M >= deadline() + 1000) { char b[200]; snprintf(b, sizeof b, "no callback for instant %lld although %llu ms passed since arming (needed %llu)", (long long)T, (unsigned long long)(M - M_arm), (unsigned long long)need_ms()); fail(b); }
+    for (auto &x : u) {
+      if (!err.empty()) return;
+      if (!x.alive) continue;
+      bool en = x.sub.a->isEnabled();
+      if (x.free_pending) { x.armed = en; x.free_pending = false; info.cls("horizon_edge"); }
+      if (en != x.armed) { fail(x, en ? "isEnabled() is true although the alarm must be disabled (one-shot fired / disabled / no instant exists)" : "isEnabled() is false although an instant exists and the alarm was enabled"); return; }
+      if (!x.armed) continue;
+      uint32_t rem = x.sub.a->remainSeconds(), exp = (uint32_t)(x.T - wsec());
+      if (rem != exp) { char b[200]; snprintf(b, sizeof b, "remainSeconds()=%u but next instant %lld - now %lld = %u", rem, (long long)x.T, (long long)wsec(), exp); fail(x, b); return; }
+      if (M >= x.deadline() + 1000) { char b[200]; snprintf(b, sizeof b, "no callback for instant %lld although %llu ms passed since arming (needed %llu)", (long long)x.T, (unsigned long long)(M - x.M_arm), (unsigned long long)x.need_ms()); fail(x, b); }
+    }
   }
 
   void lock_advance(uint64_t ms) {
@@ -510,20 +558,31 @@ struct Life {
     M += ms; W += (int64_t)ms * 1000;
   }
 
-  bool in_skew_window() const { return last_fired_T >= 0 && wsec() < last_fired_T; }
+  // ms until the wall clock has reached the instant of every skew-induced early wake-up (0 = not inside such a window)
+  int64_t skew_window_ms() const {
+    int64_t amt = 0;
+    for (auto &x : u) if (x.alive && x.last_fired_T >= 0 && wsec() < x.last_fired_T) amt = std::max(amt, (x.last_fired_T * 1000000 - W + 999) / 1000);
+    return amt;
+  }
+  // earliest deadline among the armed alarms
+  bool earliest_deadline(uint64_t &dl) const {
+    bool any = false;
+    for (auto &x : u) if (x.alive && x.armed) { uint64_t d = x.deadline(); if (!any || d < dl) dl = d; any = true; }
+    return any;
+  }
 
   void push_op(size_t k) {
     const Op &op = s.ops[k];
     Micro m;
     switch (op.code) {
-      case EN: case REF: case STEP: case DAY: case DAYCLR: case CALMASK: case RECONF:
+      case EN: case REF: case STEP: case DAY: case DAYCLR: case CALMASK: case RECONF: case SPAWN:
         // recomputing inside the few ms between a skew-induced early wake-up and the instant itself is ambiguous
         // (the instant is "still ahead" by the wall clock): first let the wall clock reach the instant
         m.kind = Micro::ADVANCE; m.a = -1; q.push_back(m);
         m.kind = Micro::DO_OP; m.op = k; q.push_back(m); break;
-      case DIS: case CBMODE: m.kind = Micro::DO_OP; m.op = k; q.push_back(m); break;
+      case DIS: case CBMODE: case SEL: case DESTROY: m.kind = Micro::DO_OP; m.op = k; q.push_back(m); break;
       case SKEW: m.kind = Micro::SKEWM; m.a = op.in(0, 1, 20); q.push_back(m); break;
-      case EARLY:   // lock-step to delta ms before the deadline, then let the monotonic clock run ahead
+      case EARLY:   // lock-step to delta ms before the selected alarm's deadline, then let the monotonic clock run ahead
         m.kind = Micro::ADVANCE; m.a = -2; m.b = op.in(0, 1, 20); q.push_back(m);
         m.kind = Micro::SKEWM; m.a = op.in(1, 1, 20); q.push_back(m); break;
       case ADV: {
@@ -538,7 +597,7 @@ struct Life {
           case 5: m.a = op.in(1, 50, 120) * kDay * 1000 + op.in(2, 0, 86399) * 1000; info.cls("advance_gt_49d"); break;
           default: m.a = op.in(1, 366, 800) * kDay * 1000 + op.in(2, 0, 86399) * 1000; info.cls("advance_gt_1y"); break;
         }
-        if (m.a < 0 && !armed) m.a = op.in(1, 0, 200000) * 1000;
+        if (m.a < 0 && !(U().alive && U().armed)) m.a = op.in(1, 0, 200000) * 1000;
         q.push_back(m); break; }
       default: break;
     }
@@ -548,9 +607,9 @@ struct Life {
   void resolve(Micro &m) {
     if (m.a >= 0) return;
     int64_t amt = 0;
-    if (m.a == -1) { if (in_skew_window()) { amt = (last_fired_T * 1000000 - W + 999) / 1000; info.cls("left_skew_window_before_op"); } }
-    else if (armed) {
-      int64_t d = (int64_t)deadline() - (int64_t)M;
+    if (m.a == -1) { amt = skew_window_ms(); if (amt > 0) info.cls("left_skew_window_before_op"); }
+    else if (U().alive && U().armed) {
+      int64_t d = (int64_t)U().deadline() - (int64_t)M;
       if (m.a == -2) amt = d - m.b;
       else if (m.a == -3) amt = d - 1000;
       else amt = d + m.b;
@@ -558,13 +617,13 @@ struct Life {
     m.a = amt < 0 ? 0 : amt;
   }
 
-  // one chunk of a lock-step advance: never jumps over a deadline without stopping 1 ms before it and at most
+  // one chunk of a lock-step advance: never jumps over the earliest deadline without stopping 1 ms before it and at most
   // 900 ms after it (a responsive loop; a loop blocked for more than a second may legitimately skip instants)
   bool advance_chunk(Micro &m) {
-    uint64_t remaining = (uint64_t)m.a, step;
-    if (!armed) step = remaining;
+    uint64_t remaining = (uint64_t)m.a, step, dl = 0;
+    if (!earliest_deadline(dl)) step = remaining;
     else {
-      uint64_t dl = deadline(), eps = (uint64_t)((m.b + 37 * stops) % 901);
+      uint64_t eps = (uint64_t)((m.b + 37 * stops) % 901);
       if (M + 1 < dl) step = std::min<uint64_t>(remaining, dl - 1 - M);
       else if (M < dl + eps) step = std::min<uint64_t>(remaining, dl + eps - M);
       else step = M < dl + 1000 ? std::min<uint64_t>(remaining, dl + 1000 - M) : remaining;
@@ -578,43 +637,118 @@ struct Life {
     return m.a > 0;
   }
 
+  // the content of calendar ci changed through the calendar's own update functions: every enabled alarm watching it must
+  // now be armed for the earliest instant under the CURRENT calendar
+  void cal_changed(int ci) {
+    int n = 0;
+    for (auto &x : u) if (x.alive && x.c.kind == K_WORKDAY && x.cal == ci && x.armed) {
+      // an arming at the edge of the horizon that has not been resolved yet (two updates within one op): the alarm may or may
+      // not have been running before this update, so after it only "not running" or "running for the new instant" are possible
+      bool unresolved = x.free_pending, en = x.sub.a->isEnabled();
+      model_arm(x, wsec()); ++n;
+      if (unresolved && x.armed && !x.free_pending && !en) x.armed = false;
+    }
+    info.cls_if(n >= 1, "calendar_update_while_enabled");
+    info.cls_if(n >= 2, "calendar_update_with_2plus_enabled_watchers");
+    info.cls_if(n >= 3, "calendar_update_with_3plus_enabled_watchers");
+  }
+  void apply_cal(int ci, bool mask, bool days) {
+    if (mask) cal[ci]->updateWeekMask((uint8_t)calm[ci].mask);
+    if (days) cal[ci]->updateSpecialDays(calm[ci].special);
+    cal_changed(ci);
+  }
+
+  // creates the alarm object of unit x for configuration x.c (not enabled)
+  std::string make_unit(Unit &x) {
+    if (x.c.kind == K_WORKDAY) x.c.calp = &calm[x.cal];
+    std::string e = x.sub.create_shared(loop.get(), cal[x.cal].get(), x.c);
+    if (!e.empty()) return e;
+    x.alive = true; x.used = true; ++created;
+    Unit *px = &x;
+    x.sub.a->setCallback([this, px] { on_fire(*px); });
+    info.cls(kKindName[x.c.kind]);
+    int n = alive_count();
+    info.cls(n == 1 ? "alarms_alive_1" : (n == 2 ? "alarms_alive_2" : "alarms_alive_3plus"));
+    int same = 0;
+    for (auto &y : u) if (y.alive && y.c.kind == K_WORKDAY && x.c.kind == K_WORKDAY && y.cal == x.cal) ++same;
+    info.cls_if(same >= 2, "workday_alarms_share_a_calendar");
+    info.cls_if(x.c.kind == K_WORKDAY && x.cal == 1, "second_calendar_used");
+    return "";
+  }
+
   void do_op(size_t k) {
     const Op &op = s.ops[k];
+    Unit &x = U();
     switch (op.code) {
+      case SEL: cur = (int)op.in(0, 0, kMaxUnits - 1); break;
+      case SPAWN: {
+        // another alarm object of any kind on the same loop; workday alarms watch calendar 0 or 1 (shared objects)
+        int slot = -1;
+        for (int i = 0; i < kMaxUnits; ++i) if (!u[i].used) { slot = i; break; }
+        if (slot < 0) break;
+        Unit &n = u[slot];
+        int kind = (int)op.in(0, 0, 3);
+        pc = derive_config(s, k, kind, tz_min, wsec() + (int64_t)tz_min * 60, n.c, false);
+        n.cal = kind == K_WORKDAY ? (int)op.in(5, 0, 1) : 0;
+        std::string e = make_unit(n);
+        if (!e.empty()) { fail(n, e); break; }
+        cur = slot;
+        break; }
+      case DESTROY: {
+        if (!x.alive || alive_count() < 2) break;
+        if (x.c.kind == K_WORKDAY && kAvoid_workday_destroy_subscribed) {
+          if (x.sub.a->isEnabled()) { real_disable(x); x.armed = false; x.free_pending = false; stats().counters["avoided_destroy_of_enabled_workday_alarm"]++; }
+          if (x.subscribed) { stats().counters["avoided_destroy_of_subscribed_workday_alarm"]++; break; }
+        }
+        info.cls(x.armed ? "destroyed_enabled_alarm" : "destroyed_disabled_alarm");
+        x.sub.destroy_alarm();
+        x.alive = false; x.armed = false; x.free_pending = false;
+        break; }
       case RECONF: {
         // disable() or cleanup(), initialize() the SAME object with a new configuration, optionally enable(): from now on the
         // instants and the firings follow the new configuration only
+        if (!x.alive) break;
         Config nc;
-        pc = reconf_config(s, k, c, wsec() + c.tz_sec(), nc);
-        int via = (int)op.in(0, 0, 1);
-        if (armed && T > wsec()) info.cls("reconf_with_pending_instant");
-        if (via == 0) sub.a->disable(); else sub.a->cleanup();
-        armed = false; free_pending = false;
-        info.cls(via == 0 ? "reconf_after_disable" : "reconf_after_cleanup");
-        if (c.kind == K_WEEKLY) info.cls_if((c.mask & ~nc.mask) != 0, "reconf_weekly_mask_drops_a_day");
-        if (c.kind == K_WORKDAY) info.cls_if(c.workday_flag != nc.workday_flag, "reconf_workday_mode_flipped");
-        c = nc;
-        std::string ie = sub.init(c);
-        if (via == 1) { sub.a->setTimezone(c.tz_min); sub.a->setCallback([this] { on_fire(); }); }   // cleanup() dropped both
-        if (!ie.empty()) { fail(ie + " when re-initialising an existing alarm"); break; }
-        reconfigured = true;
+        pc = derive_config(s, k, x.c.kind, tz_min, wsec() + x.c.tz_sec(), nc, true);
+        int via = (int)op.in(0, 0, 3);
+        if (x.armed && x.T > wsec()) info.cls("reconf_with_pending_instant");
+        if ((via & 1) == 0) real_disable(x); else { bool running = x.sub.a->isEnabled(); x.sub.a->cleanup(); if (running) x.subscribed = false; }
+        x.armed = false; x.free_pending = false;
+        info.cls((via & 1) == 0 ? "reconf_after_disable" : "reconf_after_cleanup");
+        if (x.c.kind == K_WEEKLY) info.cls_if((x.c.mask & ~nc.mask) != 0, "reconf_weekly_mask_drops_a_day");
+        if (x.c.kind == K_WORKDAY) info.cls_if(x.c.workday_flag != nc.workday_flag, "reconf_workday_mode_flipped");
+        if (x.c.kind == K_WORKDAY) {
+          // the new calendar content goes into the (possibly shared, possibly other) calendar object through its update functions
+          if ((via & 2) && !x.subscribed) { x.cal ^= 1; info.cls("reconf_workday_other_calendar"); }
+          // (two separate updates: an enabled watcher is refreshed after each of them, and one that finds no instant under
+          // the intermediate content stays disabled)
+          nc.calp = &calm[x.cal];
+          calm[x.cal].mask = nc.cal_mask; apply_cal(x.cal, true, false);
+          calm[x.cal].special = nc.special; apply_cal(x.cal, false, true);
+        }
+        x.c = nc;
+        std::string ie = x.sub.reinit(x.c, cal[x.cal].get());
+        if (via & 1) { x.sub.a->setTimezone(x.c.tz_min); Unit *px = &x; x.sub.a->setCallback([this, px] { on_fire(*px); }); }   // cleanup() dropped both
+        if (!ie.empty()) { fail(x, ie + " when re-initialising an existing alarm"); break; }
+        x.reconfigured = true;
         if (op.in(5, 0, 3) != 0) {
-          bool ret = sub.a->enable();
-          model_arm(wsec());
-          if (!free_pending && ret != armed) fail(ret ? "enable() after re-initialisation returned true although no instant exists" : "enable() after re-initialisation returned false although an instant exists");
+          bool ret = real_enable(x);
+          model_arm(x, wsec());
+          if (!x.free_pending && ret != x.armed) fail(x, ret ? "enable() after re-initialisation returned true although no instant exists" : "enable() after re-initialisation returned false although an instant exists");
         }
         break; }
       case EN: {
-        bool was = armed;
-        bool ret = sub.a->enable();
+        if (!x.alive) break;
+        bool was = x.armed;
+        bool ret = real_enable(x);
         if (!was) {
-          model_arm(wsec());
+          model_arm(x, wsec());
           info.cls("enable");
-          if (!free_pending && ret != armed) fail(ret ? "enable() returned true although no instant exists" : "enable() returned false although an instant exists");
+          if (!x.free_pending && ret != x.armed) fail(x, ret ? "enable() returned true although no instant exists" : "enable() returned false although an instant exists");
         }
         break; }
-      case DIS: if (armed && T > wsec()) info.cls("disable_with_pending_instant"); sub.a->disable(); armed = false; free_pending = false; break;
-      case REF: sub.a->refresh(); if (armed) { model_arm(wsec()); info.cls("refresh_while_enabled"); } break;
+      case DIS: if (!x.alive) break; if (x.armed && x.T > wsec()) info.cls("disable_with_pending_instant"); real_disable(x); x.armed = false; x.free_pending = false; break;
+      case REF: if (!x.alive) break; x.sub.a->refresh(); if (x.armed) { model_arm(x, wsec()); info.cls("refresh_while_enabled"); } break;
       case STEP: {
         int64_t d;
         switch (op.in(0, 0, 2)) {
@@ -626,18 +760,21 @@ struct Life {
         if (nw < kMinUtc * 1000000) nw = kMinUtc * 1000000;
         if (nw > kMaxUtc * 1000000) nw = kMaxUtc * 1000000;
         info.cls(nw < W ? "wall_step_back" : "wall_step_forward");
-        W = nw; last_fired_T = -1;
-        sub.a->refresh();                       // documented usage: refresh after the clock was corrected
-        if (armed) model_arm(wsec());
+        W = nw;
+        for (auto &y : u) if (y.alive) {
+          y.last_fired_T = -1;
+          y.sub.a->refresh();                       // documented usage: refresh after the clock was corrected
+          if (y.armed) model_arm(y, wsec());
+        }
         break; }
-      case DAY: case DAYCLR: case CALMASK:
-        if (c.kind != K_WORKDAY) break;
-        if (op.code == DAY) { if (c.special.size() < 24) c.special[(int)((wsec() + c.tz_sec()) / kDay + op.in(0, -3, 420))] = op.in(1, 0, 1) != 0; sub.cal->updateSpecialDays(c.special); }
-        else if (op.code == DAYCLR) { c.special.clear(); sub.cal->updateSpecialDays(c.special); }
-        else { c.cal_mask = (int)op.in(0, 0, 127); sub.cal->updateWeekMask((uint8_t)c.cal_mask); }
-        if (armed) { model_arm(wsec()); info.cls("calendar_update_while_enabled"); }
-        break;
-      case CBMODE: cbmode = (int)op.in(0, 0, 1); break;
+      case DAY: case DAYCLR: case CALMASK: {
+        // calendar of the selected alarm if it is a workday alarm, else calendar 0
+        int ci = (x.alive && x.c.kind == K_WORKDAY) ? x.cal : 0;
+        if (op.code == DAY) { if (calm[ci].special.size() < 24) calm[ci].special[(int)((wsec() + (int64_t)tz_min * 60) / kDay + op.in(0, -3, 420))] = op.in(1, 0, 1) != 0; apply_cal(ci, false, true); }
+        else if (op.code == DAYCLR) { calm[ci].special.clear(); apply_cal(ci, false, true); }
+        else { calm[ci].mask = (int)op.in(0, 0, 127); apply_cal(ci, true, false); }
+        break; }
+      case CBMODE: if (x.alive) x.cbmode = (int)op.in(0, 0, 1); break;
       default: break;
     }
   }
@@ -653,11 +790,17 @@ struct Life {
     Micro &m = q.front();
     switch (m.kind) {
       case Micro::ADVANCE: resolve(m); if (m.a == 0 || !advance_chunk(m)) q.pop_front(); break;
-      case Micro::SKEWM: M += (uint64_t)m.a; skewed_since_arm = true; q.pop_front(); break;
+      case Micro::SKEWM: M += (uint64_t)m.a; for (auto &x : u) x.skewed_since_arm = true; q.pop_front(); break;
       case Micro::DO_OP: { size_t k = m.op; q.pop_front(); do_op(k); break; }
     }
     settle = 2;
     return err.empty();
+  }
+
+  void teardown() {
+    for (auto &x : u) x.sub.destroy_alarm();
+    if (loop) vloop::passes(loop.get(), 2);   // let the loop run the deferred timer releases
+    cal[0].reset(); cal[1].reset(); loop.reset();
   }
 };
 
@@ -669,17 +812,24 @@ std::string run_life(const Scenario &s, CaseInfo &info) {
   vloop::Clock clk((uint64_t)st.in(4, 0, 2000000000));
   Wall wall;
   Life L(s, info, clk.now, Wall::us());
-  build_config(s, start, time_of(st), L.c);
-  L.W = clamp_utc(time_of(st) - L.c.tz_sec()) * 1000000 + st.in(5, 0, 999999);
-  std::string e = L.sub.create(L.c);
-  if (!e.empty()) { L.sub.destroy(); return e; }
-  info.cls(kKindName[L.c.kind]);
-  L.sub.a->setCallback([&L] { L.on_fire(); });
+  Unit &p = L.u[0];
+  build_config(s, start, time_of(st), p.c);
+  L.tz_min = p.c.tz_min;
+  L.W = clamp_utc(time_of(st) - p.c.tz_sec()) * 1000000 + st.in(5, 0, 999999);
+  L.loop.reset(tbox::event::Loop::New());
+  for (int i = 0; i < 2; ++i) L.cal[i].reset(new tbox::alarm::WorkdayCalendar);
+  if (p.c.kind == K_WORKDAY) {   // the initial calendar content of the primary alarm goes into calendar 0
+    L.calm[0].mask = p.c.cal_mask; L.calm[0].special = p.c.special;
+    L.cal[0]->updateWeekMask((uint8_t)L.calm[0].mask); L.cal[0]->updateSpecialDays(L.calm[0].special);
+  }
+  std::string e = L.make_unit(p);
+  if (!e.empty()) { L.teardown(); return e; }
   L.pc = start + 1;
-  vloop::drive(L.sub.loop.get(), [&L](int p) { return L.step(p); });
+  vloop::drive(L.loop.get(), [&L](int q) { return L.step(q); });
   if (L.err.empty()) L.post_check();
-  L.sub.destroy();
+  L.teardown();
   info.cls_if(L.fires > 0, "fired"); info.cls_if(L.fires >= 3, "fired_3_or_more");
+  info.cls_if(L.created == 1, "single_alarm_case");
   info.nontrivial = L.far_target || L.early_wake;
   return L.err;
 }
@@ -772,7 +922,7 @@ void g_reconf(Scenario &s, int64_t kind, bool far_bias) {
   Scenario t;
   g_config(t, kind, far_bias);
   const Op &ko = t.ops[1];
-  int64_t via = *range(0, 1), en = *range(0, 3);
+  int64_t via = *pick({{4, range(0, 1)}, {1, range(2, 3)}}), en = *range(0, 3);
   s.ops.push_back(op_of(RECONF, {via, ko.arg(0), ko.arg(1), ko.arg(2), ko.arg(3), en}));
   for (size_t i = 2; i < t.ops.size(); ++i) s.ops.push_back(t.ops[i]);
 }
@@ -792,15 +942,55 @@ rc::Gen<Scenario> gen_next() {
   });
 }
 
+// another alarm object: `spawn kind sodmode sod p1 p2 calendar`; a cron alarm's cf ops follow, a workday alarm watches calendar 0 or 1
+void g_spawn(Scenario &s, int64_t kind, int64_t calsel) {
+  Scenario t;
+  g_config(t, kind, true);
+  const Op &ko = t.ops[1];
+  s.ops.push_back(op_of(SPAWN, {kind, ko.arg(0), ko.arg(1), ko.arg(2), ko.arg(3), calsel}));
+  if (kind == K_CRON) for (size_t i = 2; i < t.ops.size(); ++i) s.ops.push_back(t.ops[i]);
+}
+
 rc::Gen<Scenario> gen_life() {
   return rc::gen::exec([]() {
     Scenario s;
     int64_t kind = *pick({{3, just(K_WEEKLY)}, {2, just(K_ONESHOT)}, {3, just(K_WORKDAY)}, {4, just(K_CRON)}});
     g_config(s, kind, true);
     s.ops.push_back(op_of(TIME, {0, g_day(), g_tod(), 3, *range(0, 2000000000), *pick({{1, just(0)}, {3, range(0, 999999)}})}));
+    // 55 % of the cases keep a single alarm object (all earlier shapes); the others run 2..4 alarms on one loop, workday alarms
+    // sharing calendar 0 (mostly) or 1
+    const bool multi = *range(0, 99) < 45;
+    std::vector<int64_t> kinds = {kind};     // generator's view of the slots (the harness ignores ops on missing alarms)
+    std::vector<int64_t> cals = {0};
+    size_t sel = 0;
+    auto workdays_on = [&](int64_t c) { int n = 0; for (size_t i = 0; i < kinds.size(); ++i) n += kinds[i] == K_WORKDAY && cals[i] == c; return n; };
+    auto spawn = [&]() {
+      int64_t k2 = (kind == K_WORKDAY || workdays_on(0) > 0) ? *pick({{3, just(K_WORKDAY)}, {1, range(0, 3)}}) : *pick({{2, just(K_WORKDAY)}, {3, range(0, 3)}});
+      int64_t c2 = k2 == K_WORKDAY ? *pick({{5, just(0)}, {1, just(1)}}) : 0;
+      g_spawn(s, k2, c2);
+      kinds.push_back(k2); cals.push_back(c2); sel = kinds.size() - 1;
+      if (*range(0, 6)) s.ops.push_back(op_of(EN, {}));
+    };
     int64_t n = *range(3, 24);
     for (int64_t i = 0; i < n; ++i) {
-      if (i == 0 && *range(0, 9)) { s.ops.push_back(op_of(EN, {})); continue; }
+      if (i == 0 && *range(0, 9)) {
+        s.ops.push_back(op_of(EN, {}));
+        if (multi) { int64_t extra = *range(1, 3); for (int64_t j = 0; j < extra; ++j) spawn(); }
+        continue;
+      }
+      if (multi) {
+        if (*range(0, 3) == 0) { sel = (size_t)*range(0, (int64_t)kinds.size() - 1); s.ops.push_back(op_of(SEL, {(int64_t)sel})); }
+        int64_t r = *range(0, 99);
+        if (r < 3 && kinds.size() < 4) { spawn(); continue; }
+        if (r < 5) { s.ops.push_back(op_of(DESTROY, {})); continue; }
+        if (r < 22 && workdays_on(cals[sel]) >= 2 && kinds[sel] == K_WORKDAY) {   // calendar updates with several watchers
+          int64_t c = *range(0, 9);
+          if (c < 7) s.ops.push_back(op_of(DAY, {*pick({{6, range(3, 6)}, {3, range(0, 12)}, {1, range(40, 400)}}), *range(0, 1)}));
+          else if (c < 8) s.ops.push_back(op_of(DAYCLR, {}));
+          else s.ops.push_back(op_of(CALMASK, {g_mask()}));
+          continue;
+        }
+      }
       int64_t w = *range(0, 99);
       if (w < 12) s.ops.push_back(op_of(EN, {}));
       else if (w < 19) s.ops.push_back(op_of(DIS, {}));
@@ -818,8 +1008,8 @@ rc::Gen<Scenario> gen_life() {
         s.ops.push_back(op_of(STEP, {mode, amt, *range(0, 86399)}));
       }
       else if (w < 87) s.ops.push_back(op_of(CBMODE, {*range(0, 1)}));
-      else if (w < 93) g_reconf(s, kind, true);
-      else if (kind == K_WORKDAY) {
+      else if (w < 93) g_reconf(s, kinds[sel], true);
+      else if (kinds[sel] == K_WORKDAY) {
         if (w < 97) s.ops.push_back(op_of(DAY, {*pick({{3, range(0, 12)}, {2, range(40, 400)}}), *range(0, 1)}));
         else if (w < 98) s.ops.push_back(op_of(DAYCLR, {}));
         else s.ops.push_back(op_of(CALMASK, {g_mask()}));
@@ -832,8 +1022,8 @@ rc::Gen<Scenario> gen_life() {
 #endif
 
 const std::vector<const char*> kOpNames = {"tz", "weekly", "oneshot", "workday", "day", "cron", "cf", "time",
-                                           "enable", "disable", "refresh", "advance", "early", "skew", "step", "calmask", "dayclr", "cbmode", "reconf"};
-const std::vector<int> kOpArity = {1, 4, 2, 4, 2, 0, 6, 6, 0, 0, 0, 3, 2, 1, 3, 1, 0, 1, 6};
+                                           "enable", "disable", "refresh", "advance", "early", "skew", "step", "calmask", "dayclr", "cbmode", "reconf", "sel", "spawn", "destroy"};
+const std::vector<int> kOpArity = {1, 4, 2, 4, 2, 0, 6, 6, 0, 0, 0, 3, 2, 1, 3, 1, 0, 1, 6, 1, 6, 0};
 
 SubDef def_next = [] {
   SubDef d; d.name = "next_instant";
